@@ -52,7 +52,7 @@ ClearedOK(ev, u0, u1) ==
 TInit == Init /\ id \in DOMAIN Traces /\ k = 0 /\ verdict = "running"
 Act(ev) == CASE ev.a = "init"    -> InitApp(ev.app, ev.n)
              [] ev.a = "stop"    -> StopApp(ev.app)
-             [] ev.a = "abort"   -> AbortApp(ev.app)
+             [] ev.a = "abort"   -> IF ev.outstanding THEN AbortOutstanding(ev.app) ELSE AbortApp(ev.app)
              [] ev.a = "zombie"  -> ev.app \notin apps /\ UNCHANGED vars      \* the rest of an orphaned subroutine changes nothing
              [] ev.a = "begin"   -> BeginSub(ev.app, ev.p)
              [] ev.a = "step"    -> StepApp(ev.app)
